@@ -426,6 +426,23 @@ func c03Free(c *Case, rng *Rng) {
 	}
 	if othersDone.Load() < othersTotal {
 		hangs.Add(1)
+	} else {
+		// the handler has counted its last completion; wait until its end marker is in the record too
+		for t0 := time.Now(); time.Since(t0) < 20*time.Second; time.Sleep(200 * time.Microsecond) {
+			open := 0
+			for _, e := range strings.Split(f.rec.str(), ",") {
+				if len(e) > 1 && e[1] != '1' {
+					if e[0] == 's' {
+						open++
+					} else if e[0] == 'f' {
+						open--
+					}
+				}
+			}
+			if open == 0 {
+				break
+			}
+		}
 	}
 	blockedTrace := f.rec.str()
 	for n := 2; n <= nq; n++ {
